@@ -24,6 +24,12 @@ const (
 	maxClockSkew = 900 * time.Second
 )
 
+// cachedRevocationStatus is what is kept in the cache: the status and the instant until which it may be used
+type cachedRevocationStatus struct {
+	status     core.RevocationStatus
+	validUntil time.Time
+}
+
 type OCSPRevocationChecker struct {
 	ocspConfig *config.OCSPConfig
 	logger     *zap.Logger
@@ -31,11 +37,12 @@ type OCSPRevocationChecker struct {
 }
 
 func (c *OCSPRevocationChecker) IsRevoked(clientCertificate *x509.Certificate, verifiedChains [][]*x509.Certificate) (*core.RevocationStatus, error) {
-	subjectRDNSequence, err := asn1parser.ParseSubjectRDNSequence(clientCertificate)
+	issuer, err := asn1parser.ParseIssuerRDNSequence(clientCertificate)
 	if err != nil {
 		return nil, err
 	}
-	cacheKey := subjectRDNSequence.String() + "_" + clientCertificate.SerialNumber.String()
+	//issuer and serial number identify the certificate a status was obtained for
+	cacheKey := issuer.String() + "_" + clientCertificate.SerialNumber.String()
 	cache, err := c.tryGetResponseFromCache(cacheKey)
 	if err == nil {
 		return cache, nil
@@ -45,10 +52,6 @@ func (c *OCSPRevocationChecker) IsRevoked(clientCertificate *x509.Certificate, v
 
 	chains := core.NewCertificateChains(verifiedChains, c.ocspConfig.TrustedResponderCerts)
 	//TODO Support AIA via clientCertificate.IssuingCertificateURL
-	issuer, err := asn1parser.ParseIssuerRDNSequence(clientCertificate)
-	if err != nil {
-		return nil, err
-	}
 	certCandidates, err := core.FindCertificateIssuerCandidates(issuer, &clientCertificate.Extensions, clientCertificate.PublicKeyAlgorithm, chains)
 	ocspServerList := c.filterHTTPOCSPServers(clientCertificate.OCSPServer)
 	var output []byte = nil
@@ -81,7 +84,10 @@ func (c *OCSPRevocationChecker) IsRevoked(clientCertificate *x509.Certificate, v
 			}
 			evictionTime := c.calculateEvictionTime(ocspResponse)
 			if evictionTime > 0 {
-				c.cache.Add(cacheKey, evictionTime, revocationStatus)
+				c.cache.Add(cacheKey, evictionTime, cachedRevocationStatus{
+					status:     revocationStatus,
+					validUntil: time.Now().Add(evictionTime),
+				})
 			}
 			return &revocationStatus, nil
 		}
@@ -140,6 +146,7 @@ func isAuthorizedResponder(responder *x509.Certificate, issuer *x509.Certificate
 func (c *OCSPRevocationChecker) Provision(ocspConfig *config.OCSPConfig, logger *zap.Logger) error {
 	c.ocspConfig = ocspConfig
 	c.logger = logger
+	c.cache = cache2go.Cache("ocsp_client")
 	return nil
 }
 
@@ -200,14 +207,21 @@ func (c *OCSPRevocationChecker) filterHTTPOCSPServers(ocspServerList []string) [
 }
 
 func (c *OCSPRevocationChecker) tryGetResponseFromCache(cacheKey string) (*core.RevocationStatus, error) {
-	c.cache = cache2go.Cache("ocsp_client")
+	if c.cache == nil {
+		return nil, errors.New("ocsp cache is not initialized")
+	}
 
 	// Let's retrieve the item from the cache.
 	res, err := c.cache.Value(cacheKey)
-	if err == nil {
-		response := res.Data().(core.RevocationStatus)
-		return &response, nil
-	} else {
+	if err != nil {
 		return nil, err
 	}
+	cached := res.Data().(cachedRevocationStatus)
+	//the cache renews the lifetime of an item on every access, but a status must not be used longer than it is valid
+	if !time.Now().Before(cached.validUntil) {
+		_, _ = c.cache.Delete(cacheKey)
+		return nil, errors.New("cached ocsp status is expired")
+	}
+	response := cached.status
+	return &response, nil
 }
